@@ -41,6 +41,10 @@ func Reset() { now = time.Unix(1_700_000_000, 0) }
 // Advance moves the harness clock forward.
 func Advance(d time.Duration) { now = now.Add(d) }
 
+// Now. //go:norace: under the controlled scheduler exactly one thread runs at a time; the clock is harness
+// state, not program state (the baton hand-off is deliberately invisible to the race detector).
+//
+//go:norace
 func Now() time.Time {
 	if !Owned {
 		return time.Now()
